@@ -111,6 +111,13 @@ func c13(c *ctx) {
 		if h == nil {
 			continue
 		}
+		if r.Intn(3) == 0 {
+			// the control plane moves the session to another CP F-SEID before any report: reports go to the new one
+			w.nextCP++
+			if w.mod(0, h.up, modReq{cpf: &[2]uint64{w.nextCP, 0x0A000001}}, "cp-fseid").Cause == 1 {
+				h.cp = w.nextCP
+			}
+		}
 		w.ddn(0, h.up, "first")
 		for k := 0; k < r.Intn(4); k++ {
 			w.ddn(0, h.up, "repeat") // well inside the 20 s interval
